@@ -56,6 +56,14 @@ ITEMS = [
      'negb (has_impl "ThreadKey" "Clone")', ["E0599"], None),
     ("key_copy", "C14", "Copy of the key (use after move)", KEY + "    let a = key;\n    let b = key;", KEY + "    let a = key;",
      'negb (has_impl "ThreadKey" "Copy")', ["E0382"], None),
+    ("key_through_shared_rwlock", "C14", "a key stored in an RwLock that is shared by reference: another thread write-locks it and takes the key",
+     KEY + "    let slot = RwLock::new(Some(key));\n    std::thread::scope(|s| { s.spawn(|| { let k = ThreadKey::get().unwrap(); let mut g = slot.write(k); let stolen = g.take(); drop(stolen); }); });",
+     KEY + "    let slot = RwLock::new(Some(1u8));\n    drop(key);\n    std::thread::scope(|s| { s.spawn(|| { let k = ThreadKey::get().unwrap(); let mut g = slot.write(k); let x = g.take(); drop(x); }); });",
+     "k7", ["E0277"], None),
+    ("key_through_shared_mutex", "C14", "a key stored in a Mutex that is shared by reference",
+     KEY + "    let slot = Mutex::new(Some(key));\n    std::thread::scope(|s| { s.spawn(|| { let k = ThreadKey::get().unwrap(); let mut g = slot.lock(k); let stolen = g.take(); drop(stolen); }); });",
+     KEY + "    let slot = Mutex::new(Some(1u8));\n    drop(key);\n    std::thread::scope(|s| { s.spawn(|| { let k = ThreadKey::get().unwrap(); let mut g = slot.lock(k); let x = g.take(); drop(x); }); });",
+     "k7", ["E0277"], None),
     ("key_send", "C14", "key moved to another thread", KEY + "    std::thread::spawn(move || { drop(key); });",
      KEY + "    std::thread::spawn(move || { let k = ThreadKey::get(); drop(k); });\n    drop(key);",
      "negb (table_impl MSend TKey)", ["E0277"], None),
@@ -175,6 +183,10 @@ ITEMS = [
      "    let o = OwnedLockCollection::new(vec![Mutex::new(1)]);\n    for x in &o { let _ = x; }",
      "    let o = OwnedLockCollection::new(vec![Mutex::new(1)]);\n    for x in o { let _ = x; }",
      "e2", ["E0277"], None),
+    ("mutexref_retarget", "C15", "a keyless guard pointed at another mutex through a public field",
+     KEY + "    let a = Mutex::new(1);\n    let b = Mutex::new(2);\n    let c = LockCollection::try_new((&a,)).unwrap();\n    let mut g = c.lock(key);\n    g.0 .0 = &b;",
+     KEY + "    let a = Mutex::new(1);\n    let c = LockCollection::try_new((&a,)).unwrap();\n    let mut g = c.lock(key);\n    *g.0 += 1;",
+     "e6", ["E0616"], None),
     ("boxed_as_mut", "C15", "exclusive access to the members of a boxed collection (AsMut): a member replaced behind the cached lock list",
      "    let mut c = LockCollection::try_new(vec![Mutex::new(1), Mutex::new(2)]).unwrap();\n    let v: &mut Vec<Mutex<i32>> = c.as_mut();\n    v[0] = Mutex::new(3);",
      "    let c = LockCollection::try_new(vec![Mutex::new(1), Mutex::new(2)]).unwrap();\n    let v: &Vec<Mutex<i32>> = c.as_ref();",
